@@ -181,6 +181,34 @@ def rule_pairing(ctx, f):
         for bi, t in call_sites(body, lambda nm, t: last_seg(nm) == "from_kind_and_params"):
             sites.append((body, bi, t))
     ctx.floor("C05-G-pair", len(sites), 2, "from_kind_and_params call sites (filters, file filters)")
+    # /DecodeParms [null << .. >>]: the i-th entry may be null for a filter without parameters - the list is read as optional dictionaries
+    bfl = Flow(b)
+    got = None
+    for bi, t in F.calls(b):
+        if t.get("callee") == "object::Object::from_primitive" and t["args"] and F.op_local(t["args"][0]) is not None:
+            ks = [a[1]["str"] for a in bfl.origins(F.op_local(t["args"][0])) if a[0] == "const" and isinstance(a[1], dict) and "str" in a[1]]
+            for a in bfl.origins(F.op_local(t["args"][0])):
+                if a[0] == "call" and last_seg(a[1]) in ("remove", "get") and len(a[3]["args"]) > 1:
+                    k0 = F.const_str(a[3]["args"][1])
+                    if k0 is None and F.op_local(a[3]["args"][1]) is not None:
+                        k1 = [x[1]["str"] for x in bfl.origins(F.op_local(a[3]["args"][1])) if x[0] == "const" and isinstance(x[1], dict) and "str" in x[1]]
+                        k0 = k1[0] if len(k1) == 1 else None
+                    if k0:
+                        ks.append(k0)
+                if a[0] == "call" and last_seg(a[3].get("callee") or "") in ("call", "call_mut", "call_once") and len(a[3]["args"]) == 2 and F.op_local(a[3]["args"][1]) is not None:
+                    # a local closure that is handed the key (`take_or_null("DecodeParms")`)
+                    for d_ in bfl.defs.get(F.op_local(a[3]["args"][1]), []):
+                        if d_[0] == "assign" and d_[2][0] == "aggregate":
+                            for o_ in d_[2][2]:
+                                if F.const_str(o_):
+                                    ks.append(F.const_str(o_))
+                                elif F.op_local(o_) is not None:
+                                    ks += [x[1]["str"] for x in bfl.origins(F.op_local(o_)) if x[0] == "const" and isinstance(x[1], dict) and "str" in x[1]]
+            if "DecodeParms" in ks:
+                got = (t.get("self_ty") or {}).get("s", "")
+    ctx.check(got is not None and "Option<primitive::Dictionary>" in got and got.startswith("std::vec::Vec<"), "C05-G-pair", b["id"] + "#params-optional", "/DecodeParms is read as %s: a "
+              "null placeholder for a filter without parameters makes the whole stream unreadable (or shifts the parameters to another filter)" % (got or "?"), b["span"],
+              detail="Vec<Option<Dictionary>>")
     keys = {}
     for k, (body, bi, t) in enumerate(sites):
         fl = Flow(body)
